@@ -56,6 +56,9 @@ func lookupIntrinsic(ex *Exec, fn *ssa.Function, name string) (intrinsic, bool) 
 }
 
 func lookupIntrinsic2(ex *Exec, fn *ssa.Function, name string) (intrinsic, bool) {
+	if ex.H != nil && ex.H.Real[name] && fn.Blocks != nil {
+		return nil, false
+	}
 	if h, ok := intrinsicTable[name]; ok {
 		return h, true
 	}
